@@ -113,6 +113,9 @@ type c13Enc struct {
 	anyObj  types.Type                 // the interface object printed as "any" (gogen.TyAny), or nil for reparsed types
 	aliases map[string]bool            // "pkgid/name"
 	bad     string
+	// comparison modulo type identity: parameter names inside type-argument lists are blanked
+	eraseInArgs bool
+	inArgs      int
 }
 
 func (e *c13Enc) tys(n int, at func(i int) types.Type) string {
@@ -126,7 +129,11 @@ func (e *c13Enc) tys(n int, at func(i int) types.Type) string {
 func (e *c13Enc) params(t *types.Tuple) string {
 	s := "PNil"
 	for i := t.Len() - 1; i >= 0; i-- {
-		s = fmt.Sprintf("(PCons %s %s %s)", coqBytes(t.At(i).Name()), e.ty(t.At(i).Type()), s)
+		name := t.At(i).Name()
+		if e.inArgs > 0 && e.eraseInArgs {
+			name = "" // type identity ignores parameter names; instances are shared among identical argument lists
+		}
+		s = fmt.Sprintf("(PCons %s %s %s)", coqBytes(name), e.ty(t.At(i).Type()), s)
 	}
 	return s
 }
@@ -149,6 +156,8 @@ func (e *c13Enc) ty(t types.Type) string {
 		}
 		id := e.pkgOf(t.Obj().Pkg())
 		e.aliases[fmt.Sprintf("%d/%s", id, t.Obj().Name())] = true
+		e.inArgs++
+		defer func() { e.inArgs-- }()
 		return fmt.Sprintf("(TNamed true %d%%N %s %s)", id, coqBytes(t.Obj().Name()), e.tys(n, func(i int) types.Type { return targs.At(i) }))
 	case *types.Named:
 		targs := t.TypeArgs()
@@ -156,6 +165,8 @@ func (e *c13Enc) ty(t types.Type) string {
 		if targs != nil {
 			n = targs.Len()
 		}
+		e.inArgs++
+		defer func() { e.inArgs-- }()
 		return fmt.Sprintf("(TNamed false %d%%N %s %s)", e.pkgOf(t.Obj().Pkg()), coqBytes(t.Obj().Name()), e.tys(n, func(i int) types.Type { return targs.At(i) }))
 	case *types.Pointer:
 		return "(TPtr " + e.ty(t.Elem()) + ")"
@@ -790,7 +801,8 @@ func runC13(a *runArgs) error {
 		m.DirectRuns++
 		if chk == nil {
 			// reported once above
-		} else if back == nil || c.Back != c.Type {
+		} else if back == nil || (c.Back != c.Type &&
+			(&c13Enc{pkgOf: pkgOf, aliases: map[string]bool{}, eraseInArgs: true}).ty(back) != (&c13Enc{pkgOf: pkgOf, anyObj: it.enc.anyObj, aliases: map[string]bool{}, eraseInArgs: true}).ty(it.T)) {
 			what := fmt.Sprintf("the syntax emitted for %s is %q, which Go resolves to %s", c.Type, it.text, c.Back)
 			if back == nil {
 				what = fmt.Sprintf("the syntax emitted for %s is %q, which does not type-check in the generated package", c.Type, it.text)
